@@ -37,6 +37,7 @@ const char *__asan_get_report_description(void);
 namespace seqx {
 
 inline uint64_t g_news, g_deletes;
+inline uint64_t g_news_512;  // allocations of exactly 512 bytes (std::deque nodes of the thread-local ready queue)
 inline uint64_t news() { return g_news; }
 inline uint64_t deletes() { return g_deletes; }
 inline int64_t live_allocs() { return (int64_t)g_news - (int64_t)g_deletes; }
@@ -45,9 +46,11 @@ inline int64_t live_allocs() { return (int64_t)g_news - (int64_t)g_deletes; }
 struct NoCount {
     uint64_t n, d;
     NoCount() : n(g_news), d(g_deletes) {}
+    uint64_t n512 = g_news_512;
     ~NoCount() {
         g_news = n;
         g_deletes = d;
+        g_news_512 = n512;
     }
 };
 
@@ -235,6 +238,7 @@ extern "C" const char *__ubsan_default_options() { return "print_stacktrace=1"; 
 // counting replacements of the global allocation functions
 inline void *seqx_alloc(size_t n, size_t al) {
     seqx::g_news++;
+    if (n == 512) seqx::g_news_512++;
     void *p = al > 16 ? aligned_alloc(al, (n + al - 1) / al * al) : malloc(n ? n : 1);
     if (!p) throw std::bad_alloc();
     return p;
